@@ -91,7 +91,8 @@ class Check(PropertyCheck):
             "oracle independent of model: feasibility and completeness of the returned schedule, metadata makespan = "
             "schedule makespan, status optimal => equals the brute-force optimum (exhaustive semi-active search in plain "
             "Python), <= every dispatching rule's makespan, >= job-length and machine-load bounds, no NoSolutionFoundError "
-            "without a time limit; thorough tier: benchmark instances with recorded optima/bounds; non-trivial = >=2 jobs "
+            "without a time limit; a benchmark instance solved under a sub-second time limit (status feasible): reported = actual "
+            "makespan, feasible, complete; thorough tier: benchmark instances with recorded optima/bounds; non-trivial = >=2 jobs "
             "sharing a machine")
     ASSUMPTIONS = ["CP-SAT is sound and complete for the model it is given (solution satisfies every constraint; "
                    "OPTIMAL = no better solution; INFEASIBLE only without solutions)",
@@ -127,6 +128,10 @@ class Check(PropertyCheck):
                 lines += [instance_line(jobs), "cpsolve" if rng.random() < 0.7 else "cpsolve call", "cpmodel"]
                 metas.append(fam)
             yield Scenario(lines, {"families": "+".join(metas), "solves": k})
+        # a time limit that stops the search before optimality is proven: the reported makespan must still be the
+        # schedule's own (status "feasible")
+        for name, secs in ([("la29", 0.4)] if tier == "quick" else [("la29", 0.4), ("ta41", 1.0), ("ft10", 0.3), ("abz7", 0.5)]):
+            yield Scenario(["new", "cpnew", f"mark timelimit {name} {secs}"], {"families": "timelimit", "solves": 1})
         if tier == "thorough":
             for name in ["ft06", "la01", "la05", "orb01"][: 4]:
                 yield Scenario(["new", "cpnew", f"mark benchmark {name}"], {"families": "benchmark", "solves": 1})
@@ -156,6 +161,18 @@ class Check(PropertyCheck):
             if f.makespan() != sched.makespan() or f.metadata["status"] != sched.metadata["status"]:
                 res.append(("state-dependence", f"reused solver object: makespan {sched.makespan()} status "
                             f"{sched.metadata['status']}; fresh solver: {f.makespan()} {f.metadata['status']}"))
+        elif line.startswith("mark timelimit"):
+            from job_shop_lib.benchmarking import load_benchmark_instance
+            from impl_ext import _ORToolsSolver, _NoSolution
+            name, secs = line.split()[2], float(line.split()[3])
+            inst = load_benchmark_instance(name)
+            try:
+                sched = _ORToolsSolver(max_time_in_seconds=secs).solve(inst)
+            except _NoSolution:
+                return res          # allowed: the time limit prevented finding a solution
+            jobs = [[(list(op.machines), op.duration) for op in job] for job in inst.jobs]
+            ctx["timelimit_status"] = sched.metadata.get("status")
+            res += self.check_schedule(inst, jobs, sched, brute=False)
         elif line.startswith("mark benchmark"):
             from job_shop_lib.benchmarking import load_benchmark_instance
             from impl_ext import _ORToolsSolver
